@@ -517,6 +517,7 @@ class TypedT1Property:
     expected_facts: dict | None = None
     signature_of: Callable | None = None
     trusted: tuple = ()
+    post: Callable | None = None  # (chk, ctx) additional ties (T2 correspondences), run before the search
 
     def modules(self):
         return f"Ampverif.Gen.{self.namespace}", f"Ampverif.GenFloat.{self.namespace}"
@@ -585,6 +586,14 @@ class TypedT1Property:
                 chk.broken_correspondence("float-twin", f"Lean driver failed: {e}"[:800])
             except Exception as e:  # noqa: BLE001
                 chk.broken_correspondence("float-twin", "".join(traceback.format_exception(type(e), e, e.__traceback__))[-900:])
+
+        if self.post is not None:
+            try:
+                self.post(chk, {"tier": tier, "seed": seed, "rng": common.rng_for(self.prop_id, seed, "post")})
+            except common.LeanRunError as e:
+                chk.broken_correspondence("post", f"Lean driver failed: {e}"[:800])
+            except Exception as e:  # noqa: BLE001
+                chk.broken_correspondence("post", "".join(traceback.format_exception(type(e), e, e.__traceback__))[-900:])
 
         n = self.n_search[tier] * (4 if chk.broken else 1)
         found = []
